@@ -4,6 +4,7 @@
    bytes the peer received with this model, and has an independent reader of the protocol parse them. *)
 From EDP Require Import Base.Bytes Term.Term Gen.Tags Gen.ControlTable Gen.DecoderArms Codec.Encode Codec.Decode Codec.Norm
   Codec.DistHeader Codec.DistHeaderFacts Dist.Control Dist.Framing Dist.Receive Dist.Send Dist.SendFacts Conc.Interleave Gen.LockScope.
+From EDP Require Node.Node Node.NodeFacts.
 
 (* one operation, one frame: the length prefix of the body, then the body *)
 Theorem C07_one_frame : forall negotiated order op f, send_frame negotiated order op = Some f ->
@@ -94,5 +95,19 @@ Example C07_example :
                                               ++ [88; 119; 3; 110; 64; 104; 0; 0; 0; 1; 0; 0; 0; 2; 0; 0; 0; 3]) /\
   uses_pass_through 8192 = false.
 Proof. cbv zeta. split; vm_compute; reflexivity. Qed.
+
+(* through the node: Node::send / link / demonitor with a remote pid write exactly the frame of the connection-level
+   operation, or fail and write nothing; Node::unlink takes its id from the node's reference counter, which advances *)
+Theorem C07_node_remote_one_frame : forall cfg st o,
+  (Node.n_connected st = true -> forall f, send_frame 0 [] o = Some f ->
+     Node.step cfg st (Node.ORemote o) = (Node.with_wrote st (Node.n_wrote st ++ [f]), Node.UOk)) /\
+  (Node.n_connected st = false \/ send_frame 0 [] o = None -> Node.step cfg st (Node.ORemote o) = (st, Node.UErr)).
+Proof. exact NodeFacts.remote_op_one_frame. Qed.
+
+Theorem C07_node_unlink_ids : forall cfg st a b, Node.n_connected st = true ->
+  forall f, send_frame 0 [] (SUnlink a b (Node.n_refctr st)) = Some f ->
+  Node.n_wrote (fst (Node.step cfg st (Node.ORemoteUnlink a b))) = Node.n_wrote st ++ [f] /\
+  Node.n_refctr (fst (Node.step cfg st (Node.ORemoteUnlink a b))) = (Node.n_refctr st + 1) mod 4294967296.
+Proof. exact NodeFacts.remote_unlink_ids. Qed.
 
 Check C07_one_frame.
